@@ -16,7 +16,8 @@ type c10Case struct {
 	setup   []string // goals run in order (each a separate query)
 	probes  []string // queries whose answers are compared afterwards
 	preds   []string // name/arity to inspect, e.g. "foo/2"
-	kf      string   // known-finding id covering this case, if any
+	kf      string   // known-finding id covering the clause/2 listing and stored-clause count of this case, if any
+	kfProbes bool    // the known finding also changes the probes' answers (retract of half a clause)
 }
 
 var c10Cases = []c10Case{
@@ -50,7 +51,8 @@ var c10Cases = []c10Case{
 	{name: "clause-body-true", setup: []string{"assertz(foo(k0)).", "assertz((foo(k1) :- true))."}, probes: []string{"clause(foo(X), B)."}, preds: []string{"foo/1"}},
 	{name: "retract-rule", setup: []string{"assertz((foo(X) :- bar(X), baz)).", "assertz((foo(X) :- bar(X)))."}, probes: []string{"retract((foo(A) :- bar(B))), A == B."}, preds: []string{"foo/1"}},
 	{name: "disj-body", setup: []string{"assertz((foo(X) :- X = k0 ; X = k1))."}, probes: []string{"foo(X)."}, preds: []string{"foo/1"}, kf: "C10/disjunctive-body-stored-per-alternative"},
-	{name: "disj-body-retract", setup: []string{"assertz((foo(X) :- X = k0 ; X = k1))."}, probes: []string{"retract((foo(_) :- _)).", "foo(X)."}, preds: []string{"foo/1"}, kf: "C10/disjunctive-body-stored-per-alternative"},
+	{name: "disj-body-retract", setup: []string{"assertz((foo(X) :- X = k0 ; X = k1))."}, probes: []string{"retract((foo(_) :- _)).", "foo(X)."}, preds: []string{"foo/1"}, kf: "C10/disjunctive-body-stored-per-alternative", kfProbes: true},
+	{name: "disj-body-wide-head", setup: []string{"assertz((foo(A, B, [H|T], f(A, Z), E) :- A = k0 ; B = k1, E = H ; fail))."}, probes: []string{"foo(A, B, C, D, E).", "foo(x, y, [k2], D, E)."}, preds: []string{"foo/5"}, kf: "C10/disjunctive-body-stored-per-alternative"},
 	{name: "ite-body", setup: []string{"assertz((foo(X, R) :- ( X = k0 -> R = yes ; R = no )))."}, probes: []string{"foo(k1, R).", "foo(X, R)."}, preds: []string{"foo/2"}},
 	{name: "conj-left-nested", setup: []string{"assertz(bar(k0)).", "assertz((foo(X, Y) :- (bar(X), bar(Y)), X == Y))."}, probes: []string{"foo(X, Y)."}, preds: []string{"foo/2"}},
 }
@@ -229,7 +231,7 @@ func VH_C10(vm *VM, inst int) {
 	kfOpen := c.kf != ""
 	for _, s := range c.setup {
 		impl, ref := c10Run(vm, newM, s, consts, 6)
-		vCompareRuns(c.name+"/setup", impl, ref, c.kf, kfOpen)
+		vCompareRuns(c.name+"/setup", impl, ref, "", false)
 	}
 	// (1) clause/2 in a fresh environment sees exactly the reference's clauses (variants, bindings applied)
 	for _, ps := range c.preds {
@@ -268,7 +270,11 @@ func VH_C10(vm *VM, inst int) {
 	// (3) the predicate behaves as the clause term prescribes
 	for _, q := range c.probes {
 		impl, ref := c10Run(vm, newM, q, consts, 6)
-		vCompareRuns(c.name+"/probe", impl, ref, c.kf, kfOpen)
+		if c.kfProbes {
+			vCompareRuns(c.name+"/probe", impl, ref, c.kf, kfOpen)
+		} else {
+			vCompareRuns(c.name+"/probe", impl, ref, "", false)
+		}
 	}
 	reach("c10/done", true)
 }
@@ -409,4 +415,28 @@ func VH_C10_bootstrap(vm *VM, text string) {
 	}
 	note("bootstrap_clauses_checked", checked)
 	verify(checked > 50, "bootstrap: too few clauses checked")
+}
+
+
+// VH_C10_gen: the generated family of C01 (heads of arity inst with four argument shapes, 2..3 disjuncts): every
+// stored clause must decompile to Head :- Alternative_i, in order (the per-alternative storage itself is the known
+// finding C10/disjunctive-body-stored-per-alternative; what each stored clause denotes is checked here).
+func VH_C10_gen(vm *VM, inst int) {
+	clauses, head, alts, _, _ := c01GenClause(inst)
+	for _, cl := range clauses {
+		ok, err := Assertz(vm, cl, Success, nil).Force(context.Background())
+		verify(ok && err == nil, "harness: assertz failed")
+	}
+	name, arity, _ := rNameArity(head)
+	p, ok := vm.procedures[procedureIndicator{name: name, arity: Integer(arity)}]
+	verify(ok, "gen: predicate missing")
+	u := p.(*userDefined)
+	verify(len(u.clauses) == len(alts), "gen: number of stored clauses differs from the number of alternatives")
+	for i, cl := range u.clauses {
+		dec, ok := c10Decompile(cl)
+		verify(ok, "gen: malformed bytecode")
+		want := c10Normalize(xIf.Apply(head, alts[i]))
+		verify(vVariantV(dec, want, &rRename{}, &rRename{}), "gen: stored clause does not denote Head :- Alternative")
+	}
+	reach("c10/gen-done", true)
 }
